@@ -49,6 +49,9 @@ CHECKS = {
  "C07": dict(text="Seeded search: every !accfg.state value the traced program defines or consumes is checked, at run time on the simulated machine, against the repo's own infer_state_of claims (field -> SSA value must equal the concrete register now) and against the dynamically last writer of the accelerator (threading), under clobber faults at any nesting depth, all trip counts and branch outcomes.",
               note="As C01; the contract for which ops may clobber (A2) is re-implemented in /verif, independent of has_accfg_effects.",
               tech="deterministic simulation with fault injection (register clobbers by un-annotated calls); online invariants comparing the compiler's inferred state with the concrete register file", ref="5 C07"),
+ "C20": dict(text="Seeded search over merge histories (a history machine, no schedule or fault exists for this object): 1-5 kernel bodies are merged one after the other into the real abstract phs.PEOp by append_to_abstract_graph; after every merge every kernel merged so far is decoded again and the PE, configured with the decoded switches, is evaluated by an independent PE interpreter on a small exhaustive grid plus seeded data points against direct evaluation of the kernel; decode must succeed for every merged kernel and return exactly get_true_switches() values.",
+              note="Kernels of 1-3 integer add/sub/mul or float addf/subf/mulf ops over 2-3 inputs; finite inputs; trusts the 40-line PE interpreter in /verif.",
+              tech="reference-model state machine over seeded merge/decode histories with an executable PE interpreter as oracle (no schedule/fault dimension)", ref="5 C20"),
 }
 
 def main():
